@@ -168,3 +168,45 @@ def module_state(*modules):
                     and hasattr(v, "__dict__") and not callable(v):
                 items.append((m.__name__, k, fingerprint(v)))
     return fingerprint(items)
+
+
+class _ChildRec(object):
+    """stand-in for core.Rec inside a pristine child: remembers what was reported"""
+
+    def __init__(self, tmp):
+        self.tmp = tmp
+        self.fails = []
+        self.counts = []
+        self.oks = []
+
+    def fail(self, case, message):
+        self.fails.append((case, message))
+
+    def count(self, key, n=1):
+        self.counts.append((key, n))
+
+    def ok(self, *a, **kw):
+        self.oks.append((a, kw))
+
+
+def pristine(execute):
+    """wrap a histories `execute(hist, rec)` so that every history is replayed in a forked child of a worker
+    that never runs the library itself: module-level state (caches keyed by file name, shared defaults) is
+    pristine at the start of every history, so it is part of the explored state instead of leaking from one
+    history into the next, and a recorded history fails (or passes) the same way when replayed alone"""
+    def wrapped(hist, rec):
+        def run():
+            cr = _ChildRec(rec.tmp)
+            out = execute(hist, cr)
+            return cr.fails, cr.counts, out
+        st, res = in_child(run)
+        if st != "ok":
+            rec.fail(hist, "history could not be executed: %s" % (res,))
+            return None
+        fails, counts, out = res
+        for case, message in fails:
+            rec.fail(case, message)
+        for key, n in counts:
+            rec.count(key, n)
+        return out
+    return wrapped
